@@ -618,7 +618,12 @@ pub fn in_domain(op: Op, args: &[BigRational]) -> bool {
             args.len() == 2
                 && args[1].is_integer()
                 && !args[1].is_negative()
-                && args[1].to_integer() <= BigInt::from(64)
+                && (args[1].to_integer() <= BigInt::from(64)
+                    // larger exponents only where the exact power stays of moderate size
+                    || (args[1].to_integer() <= BigInt::from(2048) && {
+                        let m = args[0].abs();
+                        m > BigRational::new(BigInt::from(1), BigInt::from(2)) && m < BigRational::from_integer(BigInt::from(2))
+                    }))
         }
         Op::Quotient | Op::Remainder | Op::Modulo => {
             args.len() == 2 && args[0].is_integer() && args[1].is_integer() && !args[1].is_zero()
